@@ -152,11 +152,11 @@ class SharedMemoryFileBufferedCollection(FileBufferedCollection):
             # collection pointing to the same data flushed the buffer. This
             # object's data will still be pointing to that one, though, so the
             # safest choice is to reinitialize its data from scratch.
+            # The rebuild must work for dict-like and list-like collections.
+            data = self._to_base()
             with self._suspend_sync:
-                self._data = {
-                    key: self._from_base(data=value, parent=self)
-                    for key, value in self._to_base().items()
-                }
+                self._data = type(self._data)()
+                self._update(data, _validate=True)
 
     def _load(self):
         """Load data from the backend but buffer if needed.
